@@ -50,6 +50,9 @@ func c02Callers(c *core.Ctx, a *c02Anchors) {
 			}
 		}
 	}
+	if boolIdx < 0 && a.endedExact != "" {
+		boolIdx, _ = c02FlagResult(sig)
+	}
 	fieldForm := sig.Results().Len() == 0 && a.resField != nil && a.sawField != nil
 	if flowIdx < 0 || (!fieldForm && (strIdx < 0 || boolIdx < 0)) {
 		c.Undecide("R-C02-5", a.loopCons+"|flow order", pos(c, a.loopFn.Node), "the flow loop neither returns (string, …, bool) nor keeps result and END flag in fields of a run-state struct")
@@ -258,8 +261,10 @@ func c02Caller1(c *core.Ctx, a *c02Anchors, cl *c02Caller, flowIdx, strIdx, bool
 		return len(pparams)
 	}
 	sawKey := ""
+	var saw c02Flag
 	if sawID != nil && len(order) > 1 {
-		sawKey = f.VarKey(sawID)
+		saw = c02FlagOf(f, sawID, a.endedExact)
+		sawKey = saw.key
 	}
 	for i, r := range order {
 		states := res.At[r.call]
@@ -276,7 +281,7 @@ func c02Caller1(c *core.Ctx, a *c02Anchors, cl *c02Caller, flowIdx, strIdx, bool
 				bad, why = st, "the "+r.name+" flow can run twice for one request"
 			case r.ident != nil && !st.Is(f.NilKey(r.ident), flow.False):
 				bad, why = st, "the "+r.name+" flow is run without the "+r.name+" pipeline being known non-nil (nil dereference when no global filter supplies it)"
-			case sawKey != "" && !st.Is(sawKey, flow.False):
+			case sawKey != "" && !saw.is(st, flow.False):
 				bad, why = st, "the "+r.name+" flow runs although an earlier flow may have reported END: something runs after END"
 			}
 			for j := range order {
@@ -315,7 +320,7 @@ func c02Caller1(c *core.Ctx, a *c02Anchors, cl *c02Caller, flowIdx, strIdx, bool
 			if r.ident != nil && st.Is(f.NilKey(r.ident), flow.True) {
 				continue
 			}
-			if sawKey != "" && st.Is(sawKey, flow.True) {
+			if sawKey != "" && saw.is(st, flow.True) {
 				continue
 			}
 			laterRan := false
@@ -764,7 +769,7 @@ func c02CallerStaged(c *core.Ctx, a *c02Anchors, cl *c02Caller, d *c02Defs, name
 		c.Violate("R-C02-5", cons+"|END of a flow is honoured", pos(c, call), "the bool result (END seen) of the flow run is discarded: an END in one flow does not stop the flows after it")
 		return
 	}
-	sawKey := f.VarKey(sawID)
+	saw := c02FlagOf(f, sawID, a.endedExact)
 	// the stage expression whose nil-ness gates the call
 	var stageNil []string
 	ast.Inspect(lp.body, func(n ast.Node) bool {
@@ -796,12 +801,12 @@ func c02CallerStaged(c *core.Ctx, a *c02Anchors, cl *c02Caller, d *c02Defs, name
 				st.Set(evIn, flow.True)
 				st.Set(evRan, flow.False)
 			case lp.backKind:
-				if st.Is(evIn, flow.True) && !st.Is(evRan, flow.True) && !isNil(st, flow.True) && !st.Is(sawKey, flow.True) && badSkip == nil {
+				if st.Is(evIn, flow.True) && !st.Is(evRan, flow.True) && !isNil(st, flow.True) && !saw.is(st, flow.True) && badSkip == nil {
 					badSkip = st
 				}
 				st.Set(evIn, flow.False)
 			case lp.doneKind:
-				if st.Is(evIn, flow.True) && !st.Is(sawKey, flow.True) && badLeave == nil {
+				if st.Is(evIn, flow.True) && !saw.is(st, flow.True) && badLeave == nil {
 					badLeave = st
 				}
 				st.Set(evIn, flow.False)
@@ -825,7 +830,7 @@ func c02CallerStaged(c *core.Ctx, a *c02Anchors, cl *c02Caller, d *c02Defs, name
 			bad, why = st, "a stage's flow can run twice in one iteration"
 		case !isNil(st, flow.False):
 			bad, why = st, "a stage's flow is run without the stage being known non-nil (nil dereference when no global filter supplies it)"
-		case !st.Is(sawKey, flow.False):
+		case !saw.is(st, flow.False):
 			bad, why = st, "a stage's flow runs although an earlier flow may have reported END: something runs after END"
 		}
 		if bad != nil {
@@ -848,7 +853,7 @@ func c02CallerStaged(c *core.Ctx, a *c02Anchors, cl *c02Caller, d *c02Defs, name
 		if ex.Kind != flow.ExitReturn {
 			continue
 		}
-		if ex.State.Is(evIn, flow.True) && !ex.State.Is(sawKey, flow.True) && badLeave == nil {
+		if ex.State.Is(evIn, flow.True) && !saw.is(ex.State, flow.True) && badLeave == nil {
 			badLeave = ex.State
 		}
 		switch {
